@@ -583,7 +583,7 @@ func addressed(shape, strides []int, f func(off int)) bool {
 }
 
 // outsideDestChanged reports an element of slot i (in storage order within its window) that changed although no
-// destination addresses it, neither through the access pattern it had before the operation nor the one it has now.
+// destination addresses it, through the access pattern it had before the operation (an operation that gives its destination another access pattern - Reshape, T, a reuse tensor reshaped to the result's shape - reaches the same elements; one that gives it other storage - SliceInto, DecodeInto - writes no elements of other tensors).
 // mask=true does the same for mask entries.
 func outsideDestChanged(w *World, i int, pre []winRec, dests []int, mask bool) (int, bool) {
 	p := pre[i]
@@ -621,20 +621,12 @@ func outsideDestChanged(w *World, i int, pre []winRec, dests []int, mask bool) (
 			if d < len(pre) && pre[d].raw != nil && pre[d].mask != nil {
 				mark(pre[d].mptr, pre[d].shape, pre[d].strides, 1)
 			}
-			if dt := w.slots[d]; dt != nil && dt.Dtype().Type != nil && len(dt.Mask()) > 0 {
-				in := tensor.VerifInternals(dt)
-				m := dt.Mask()
-				mark(uintptr(unsafe.Pointer(&m[0])), in.Shape, in.Strides, 1)
-			}
 			continue
 		}
 		if d < len(pre) && pre[d].raw != nil {
 			mark(pre[d].ptr, pre[d].shape, pre[d].strides, pre[d].esz)
 		}
-		if dt := w.slots[d]; dt != nil && dt.Dtype().Type != nil && len(tensor.VerifRaw(dt)) > 0 {
-			in := tensor.VerifInternals(dt)
-			mark(in.RawPtr, in.Shape, in.Strides, int(dt.Dtype().Size()))
-		}
+
 	}
 	if !understood {
 		return 0, false // a destination whose access pattern this oracle cannot interpret excuses everything
